@@ -295,12 +295,16 @@ impl Check for Refusal {
     }
     fn strategy(&self, _tier: Tier) -> BoxedStrategy<RefusalCase> {
         let c = cfg();
-        (ga::shaped_program(&c, 1), 0u8..9, any::<u8>())
+        // (t/3 and u/4: repeated head variables that are not neighbours need three arguments)
+        let mut c = c;
+        c.preds.push(("t".into(), 3));
+        c.preds.push(("u".into(), 4));
+        (ga::shaped_program(&c, 1), 0u8..10, any::<u8>())
             .prop_map(|(program, mutation, which)| RefusalCase { program, mutation, which })
             .boxed()
     }
     fn rule(&self) -> String {
-        "tau* theory of a random program with exactly one defect injected into one formula with a first-order head: head argument replaced by a numeral / by an integer term / repeated variable / head variables renamed, swapped, rotated or given another sort in one of two partial definitions of the same predicate / outer quantifier made existential / outer quantifier dropped (free variables); oracle: completion returns None; control: every unmutated tau* theory is completed; non-trivial = a defect could be injected (the program has a rule with a first-order head); distinct by mutated theory text".into()
+        "tau* theory of a random program with exactly one defect injected into one formula with a first-order head: head argument replaced by a numeral / by an integer term / repeated variable (neighbouring, or first and last of three or four) / head variables renamed, swapped, rotated or given another sort in one of two partial definitions of the same predicate / outer quantifier made existential / outer quantifier dropped (free variables); oracle: completion returns None; control: every unmutated tau* theory is completed; non-trivial = a defect could be injected (the program has a rule with a first-order head); distinct by mutated theory text".into()
     }
     fn run(&self, case: &RefusalCase) -> Outcome {
         let theory = case.program.clone().tau_star();
@@ -348,6 +352,16 @@ impl Check for Refusal {
                     return Outcome::skip("head has a single argument");
                 }
                 a.terms[1] = a.terms[0].clone();
+            }
+            9 => {
+                // the first variable again in the last place, the arguments in between untouched: p(V1, V2, V1)
+                label = "repeated-variable-apart";
+                let a = first_head_atom(&mut mutated.formulas[idx]).unwrap();
+                let n = a.terms.len();
+                if n < 3 {
+                    return Outcome::skip("head has fewer than three arguments");
+                }
+                a.terms[n - 1] = a.terms[0].clone();
             }
             3 => {
                 label = "mismatched-heads";
